@@ -5,3 +5,4 @@ import AtomicaModel.EngineIO
 import AtomicaModel.Series
 import AtomicaModel.Coverage
 import AtomicaModel.Covout
+import AtomicaModel.Expr
